@@ -1,4 +1,5 @@
 #include <yaclib/fault/detail/fiber/fiber_base.hpp>
+#include <yaclib/fault/inject.hpp>
 
 #include <cstdio>
 #include <utility>
@@ -40,6 +41,7 @@ void FiberBase::Start() {
 }
 
 void FiberBase::Exit() {
+  YACLIB_VERIF_SYNC(8, this, static_cast<unsigned long long>(_id));
   _state = Completed;
   if (_joining_fiber != nullptr && _thread_alive) {
     ScheduleFiber(_joining_fiber);
